@@ -86,4 +86,13 @@ genuine covariance -/
 theorem src_hilbert_fields_centred :
     Gen.hilbertRecentreMeanArgs = "axis=0" ∧ Gen.hilbertRecentreAfterCutUnconditional = true := by decide
 
+/-- source obligation (homogeneous / heterogeneous patterns): the Pearson kernel divides by the ddof-0 deviations and averages over
+`n` — the one combination (besides ddof 1 with `n − 1`) for which a self-correlation is exactly one -/
+theorem src_pearson_consistent (nn : ℝ) : Gen.pearsonStdDdof = 0 ∧ Gen.pearsonDenominator nn = nn := ⟨rfl, rfl⟩
+
+/-- with deviations `σ² = (Σ|x|²)/n` the self-correlation `(Σ|x|²/σ²)/n` is one -/
+theorem pearson_self_one (ss nn : ℝ) (hn : nn ≠ 0) (hs : ss ≠ 0) : (ss / (ss / nn)) / Gen.pearsonDenominator nn = 1 := by
+  simp only [Gen.pearsonDenominator]
+  field_simp
+
 end C09
